@@ -391,6 +391,10 @@ type runner struct {
 	prov *provider
 	pw   *proofs
 	keys []keyKind
+	// key kind of the certificate the server's keyless cache holds per normalised hostname (the provider
+	// is only asked on a miss, so later calls are served with the first certificate)
+	cached  map[string]keyKind
+	caseKey keyKind
 }
 
 func b01(b bool) string {
@@ -410,6 +414,11 @@ func normTok(raw string) (string, string, bool) {
 
 func (x *runner) reset() {
 	x.kv = newKV()
+	x.cached = map[string]keyKind{}
+	x.caseKey = x.keys[x.rng.Intn(len(x.keys))]
+	if x.rng.Bool() {
+		x.caseKey = x.keys[x.rng.Intn(2)]
+	}
 	x.prov = &provider{CertProvider: new(mocks.CertProvider), kind: "cert", cert: x.keys[0].cert}
 	x.srv = server.New(server.Config{
 		ParentContext: context.Background(), Logger: zap.NewNop(),
@@ -454,6 +463,7 @@ func (x *runner) prep(cl call) (proof *protocol.ProofOfWork, lhs string, powOk b
 }
 
 func (x *runner) getcert(cl call) {
+	x.prov.cert = x.caseKey.cert
 	proof, lhs, powOk := x.prep(cl)
 	var resp *protocol.KeylessGetCertificateResponse
 	var err error
@@ -473,6 +483,9 @@ func (x *runner) getcert(cl call) {
 	} else if err == nil {
 		n = strconv.Itoa(len(resp.GetCertificates()))
 	}
+	if norm, _, nok := normTok(cl.raw); nok && x.prov.calls > 0 && cl.prov == "cert" {
+		x.cached[norm] = x.caseKey
+	}
 	x.r.Emit("getcert "+lhs, res+" "+n+" "+strconv.Itoa(x.prov.calls))
 	key := ""
 	if powOk {
@@ -485,6 +498,10 @@ func (x *runner) getcert(cl call) {
 var hashes = map[int]crypto.Hash{1: crypto.SHA256, 2: crypto.SHA384, 3: crypto.SHA512}
 
 func (x *runner) sign(cl call, algo, dlen int, kk keyKind) {
+	norm, _, nok := normTok(cl.raw)
+	if ck, ok := x.cached[norm]; ok && nok {
+		kk = ck
+	}
 	x.prov.cert = kk.cert
 	proof, lhs, powOk := x.prep(cl)
 	digest := x.rng.Bytes(dlen)
@@ -512,6 +529,9 @@ func (x *runner) sign(cl call, algo, dlen int, kk keyKind) {
 		if known && verifySig(kk, h, digest, resp.GetSignature()) {
 			ver = "1"
 		}
+	}
+	if nok && x.prov.calls > 0 && cl.prov == "cert" {
+		x.cached[norm] = kk
 	}
 	x.r.Emit("sign "+lhs+" "+strconv.Itoa(algo)+" "+strconv.Itoa(dlen)+" "+kk.name+" "+b01(isSigner)+b01(signOk),
 		res+" "+strconv.Itoa(x.prov.calls)+" "+ver)
@@ -659,7 +679,7 @@ func main() {
 			}
 		}
 	}
-	cases := 60
+	cases := 120
 	if r.Thorough() {
 		cases = 1500
 	}
@@ -667,7 +687,10 @@ func main() {
 	for cs := 0; cs < cases; cs++ {
 		x.pw.warm(subjects)
 		x.reset()
-		raw := hlib.Pick(rng, rawHosts)
+		raw := hlib.Pick(rng, rawHosts[:6])
+		if rng.Intn(4) == 0 {
+			raw = hlib.Pick(rng, rawHosts)
+		}
 		norm, _, nok := normTok(raw)
 		owner := hlib.Pick(rng, clients)
 		if nok && rng.Intn(6) != 0 {
@@ -705,8 +728,8 @@ func main() {
 				} else if hs, ok := hashes[algo]; ok && rng.Bool() {
 					dl = hs.Size()
 				}
-				kk := x.keys[0]
-				if rng.Intn(3) == 0 {
+				kk := x.caseKey
+				if rng.Intn(5) == 0 {
 					kk = hlib.Pick(rng, x.keys)
 				}
 				x.sign(cl, algo, dl, kk)
